@@ -363,16 +363,39 @@ def emit_match_fn(defname, argname, argtype, rettype, arms, aliases):
     return out
 
 
-def eval_const_expr(toks):
+def eval_const_expr(toks, env_toks=None, depth=0):
+    """integer constant expressions: literals, + - * / % << >> | & ( ), `as <int type>` casts, and
+    names of other `const`s of the same file (resolved recursively)"""
     s = ''
-    for k, v in toks:
+    i = 0
+    while i < len(toks):
+        k, v = toks[i]
         if k == 'num':
             s += str(v)
-        elif k == 'op' and v in '+-*()':
+        elif k == 'op' and v in ('+', '-', '*', '(', ')', '<<', '>>', '|', '&', '%'):
             s += v
+        elif k == 'op' and v == '/':
+            s += '//'
+        elif (k, v) == ('id', 'as') and i + 1 < len(toks) and toks[i + 1][1] in ('u8', 'u16', 'u32', 'u64', 'usize', 'i32', 'i64'):
+            i += 1
+        elif k == 'id' and env_toks is not None and depth < 8:
+            j = find_seq(env_toks, ['const', v, ':'])
+            if j < 0:
+                raise TranslateError("const expr: unknown name %s" % v)
+            a = j
+            while env_toks[a] != ('op', '='):
+                a += 1
+            e = a
+            while env_toks[e] != ('op', ';'):
+                e += 1
+            s += '(%d)' % eval_const_expr(env_toks[a + 1:e], env_toks, depth + 1)
         else:
             raise TranslateError("const expr token %r" % ((k, v),))
-    return int(eval(s, {'__builtins__': {}}))
+        i += 1
+    try:
+        return int(eval(s, {'__builtins__': {}}))
+    except Exception as e:
+        raise TranslateError("const expr %r: %s" % (s, e))
 
 
 def find_consts(toks, name):
@@ -389,7 +412,7 @@ def find_consts(toks, name):
         e = j
         while toks[e] != ('op', ';'):
             e += 1
-        val = eval_const_expr(toks[j + 1:e])
+        val = eval_const_expr(toks[j + 1:e], toks)
         # look back for #[cfg(...)] directly before (skipping `pub`)
         b = i - 1
         while b >= 0 and toks[b] == ('id', 'pub'):
@@ -704,6 +727,9 @@ def main():
         body = find_fn_body(error, ['impl', 'HandlingError'], fn)
         i = find_seq(body, ['with_code', '(', 'ResponseType', '::'])
         j = find_seq(body, ['code', ':', 'None'])
+        i2 = find_seq(body, ['code', ':', 'Some', '(', 'ResponseType', '::'])
+        if i < 0 and i2 >= 0:
+            i = i2 + 2
         if i >= 0 and j < 0:
             L.append('def %s : Option ResponseType := some .%s' % (lean, body[i + 4][1]))
         elif j >= 0 and i < 0:
